@@ -400,13 +400,46 @@ theorem scaleValue_isSome (sd : List Rat → Rat) (sc : Scl) (xs : List Rat) (s 
     obtain ⟨d, hd⟩ := maxL_isSome this
     exact ⟨guardDiv (1, d), by simp [scaleValue, scaleNumDen, hd]⟩
 
+theorem nums_length_le_present (w : List Val) : (nums w).length ≤ presentCount w := by
+  induction w with
+  | nil => simp [nums, presentCount]
+  | cons v l ih =>
+    unfold nums presentCount at ih ⊢
+    cases v with
+    | num q =>
+      rw [List.filterMap_cons_some (f := Val.num?) (a := Val.num q) (b := q) rfl, List.filter_cons_of_pos (by rfl)]
+      simp only [List.length_cons]; omega
+    | nan =>
+      rw [List.filterMap_cons_none (f := Val.num?) (a := Val.nan) rfl, List.filter_cons_of_neg (by decide)]
+      exact ih
+    | nil =>
+      rw [List.filterMap_cons_none (f := Val.num?) (a := Val.nil) rfl, List.filter_cons_of_neg (by decide)]
+      exact ih
+    | str t =>
+      rw [List.filterMap_cons_none (f := Val.num?) (a := Val.str t) rfl, List.filter_cons_of_pos (by rfl)]
+      simp only [List.length_cons]; omega
+
 /-- soundness of the fitted parameters: they are the documented statistics of the window -/
 theorem fit_sound {sd : List Rat → Rat} {cfg : Cfg} {w : List Val} {s f : Rat}
     (h : fit sd cfg w = some (s, f)) :
     ShiftStat cfg.shift (nums w) s ∧ ScaleStat sd cfg.scale (nums w) s f := by
   unfold fit at h
   split at h
-  · simp at h
+  · split at h
+    · rename_i a b hsh hsc
+      simp only [Option.some.injEq, Prod.mk.injEq] at h
+      obtain ⟨rfl, rfl⟩ := h
+      rw [hsh, hsc]
+      exact ⟨rfl, 1, rfl, by norm_num⟩
+    · rename_i a hsh hsc
+      split at h
+      · rename_i hc
+        simp only [Option.some.injEq, Prod.mk.injEq] at h
+        obtain ⟨rfl, rfl⟩ := h
+        rw [hsh, hsc]
+        refine ⟨rfl, 0, Or.inl ⟨le_trans (nums_length_le_present w) hc, rfl⟩, by norm_num⟩
+      · simp at h
+    · simp at h
   · split at h
     · simp at h
     · rename_i sh hsh
@@ -689,8 +722,10 @@ theorem col_zero_singletons (ws : List Val) : col 0 (ws.map (fun v => [v])) = ws
   | nil => rfl
   | cons a l ih => simp [col] at ih ⊢
 
-/-- scalar contexts behave like dense contexts with one feature -/
-theorem scale_scalar_dense_agree' (sd : List Rat → Rat) (cfg : Cfg) (rows : List Val) (hu : cfg.usingN ≠ some 0) :
+/-- scalar contexts behave like dense contexts with one feature (when the first context is not a string: the dense
+path takes its potential keys from the first context, the scalar path always fits) -/
+theorem scale_scalar_dense_agree' (sd : List Rat → Rat) (cfg : Cfg) (rows : List Val)
+    (hs : ∀ v0, rows.head? = some v0 → v0.isStr = false) :
     scaleDense sd cfg (rows.map (fun v => [v])) = (scaleScalar sd cfg rows).map (fun v => [v]) := by
   cases rows with
   | nil => rfl
@@ -701,24 +736,13 @@ theorem scale_scalar_dense_agree' (sd : List Rat → Rat) (cfg : Cfg) (rows : Li
     simp only [scaleDense, scaleScalar, List.map_cons, List.map_map, hwin]
     have hcol : col 0 ((window cfg.usingN (v0 :: rest)).map (fun v => [v])) = window cfg.usingN (v0 :: rest) :=
       col_zero_singletons _
+    have hp : potDense [v0] 0 = true := by
+      have := hs v0 rfl
+      cases v0 <;> simp_all [potDense, Val.numOrNil, Val.isStr]
     have key : ∀ v : Val, denseRow sd cfg [v0] ((window cfg.usingN (v0 :: rest)).map (fun v => [v])) [v]
         = [applyOpt (fit sd cfg (window cfg.usingN (v0 :: rest))) v] := by
       intro v
-      simp only [denseRow, List.mapIdx_cons, List.mapIdx_nil, hcol]
-      by_cases hp : potDense [v0] 0 = true
-      · simp [hp]
-      · have hs : v0.isStr = true := by
-          cases v0 <;> simp_all [potDense, Val.numOrNil, Val.isStr]
-        have hmem : v0 ∈ window cfg.usingN (v0 :: rest) := by
-          cases hn : cfg.usingN with
-          | none => simp [window]
-          | some n =>
-            cases n with
-            | zero => exact absurd hn hu
-            | succ n => simp [window]
-        have : (window cfg.usingN (v0 :: rest)).any Val.isStr = true :=
-          List.any_eq_true.2 ⟨v0, hmem, hs⟩
-        simp [hp, fit, this, applyOpt]
+      simp [denseRow, List.mapIdx_cons, List.mapIdx_nil, hcol, hp]
     simp [Function.comp_def, key]
 
 
@@ -1491,5 +1515,206 @@ theorem impute_sparse_indicator_value' (st : Stat) (ind : Bool) (first : SCtx) (
       (imputeSparseRow st ind first win c).lookup (b ++ "_is_missing") = some (bit (missAt (c.lookup b'))) :=
   lookup_foldl_upsert_hit _ (fun k => bit (missAt (c.lookup k))) _ b hb
 
+
+/-! ### phase 3: windows holding strings, the empty window, targets -/
+
+theorem fit_string_window' (sd : List Rat → Rat) (cfg : Cfg) (w : List Val) (h : w.any Val.isStr = true) (s f : Rat) :
+    fit sd cfg w = some (s, f) ↔
+      ∃ a, cfg.shift = .num a ∧ s = a ∧
+        ((∃ b, cfg.scale = .num b ∧ f = b) ∨ (cfg.scale = .iqr ∧ presentCount w ≤ 1 ∧ f = 1)) := by
+  unfold fit
+  simp only [h, if_true]
+  constructor
+  · intro hf
+    split at hf
+    · rename_i a b hsh hsc
+      simp only [Option.some.injEq, Prod.mk.injEq] at hf
+      exact ⟨a, hsh, hf.1.symm, Or.inl ⟨b, hsc, hf.2.symm⟩⟩
+    · rename_i a hsh hsc
+      split at hf
+      · rename_i hc
+        simp only [Option.some.injEq, Prod.mk.injEq] at hf
+        exact ⟨a, hsh, hf.1.symm, Or.inr ⟨hsc, hc, hf.2.symm⟩⟩
+      · simp at hf
+    · simp at hf
+  · rintro ⟨a, hsh, rfl, hb | ⟨hsc, hc, rfl⟩⟩
+    · obtain ⟨b, hsc, rfl⟩ := hb
+      rw [hsh, hsc]
+    · rw [hsh, hsc]
+      simp [hc]
+
+theorem window_nonempty {α} (u : Option Nat) (f : α) (r : List α) (hu : u ≠ some 0) : (window u (f :: r)).isEmpty = false := by
+  cases u with
+  | none => rfl
+  | some n =>
+    cases n with
+    | zero => exact absurd rfl hu
+    | succ n => simp [window]
+
+theorem scaleDenseFull_eq' (sd : List Rat → Rat) (cfg : Cfg) (rows : List (List Val)) (hu : cfg.usingN ≠ some 0) :
+    scaleDenseFull sd cfg rows = scaleDense sd cfg rows := by
+  cases rows with
+  | nil => simp [scaleDenseFull, denseZeroWindow]
+  | cons f r => simp [scaleDenseFull, denseZeroWindow, window_nonempty cfg.usingN f r hu]
+
+theorem scaleDenseFull_zero' (sd : List Rat → Rat) (cfg : Cfg) (first : List Val) (rest : List (List Val))
+    (hu : cfg.usingN = some 0) :
+    scaleDenseFull sd cfg (first :: rest) =
+      if 2 ≤ potCount first then first :: rest else scaleDense sd cfg (first :: rest) := by
+  simp [scaleDenseFull, denseZeroWindow, hu, window]
+
+theorem scaleSparse_eq_rows' (sd : List Rat → Rat) (cfg : Cfg) (rows : List SCtx) (h0 : cfg.shift = .num 0) :
+    scaleSparse sd cfg rows = .ok (scaleSparseRows sd cfg rows) := by
+  cases rows with
+  | nil => rfl
+  | cons f r => simp [scaleSparse, scaleSparseRows, h0]
+
+theorem scaleFilter_context' (sd : List Rat → Rat) (sc : ScaleCfg) (c : Ctxs) (h : sc.target = "context") :
+    scaleFilter sd sc c = scaleCtxs sd sc.cfg c := by
+  cases c <;> simp [scaleFilter, scaleCtxs, h]
+
+theorem scaleFilter_other' (sd : List Rat → Rat) (sc : ScaleCfg) (c : Ctxs) (h : sc.target ≠ "context") :
+    scaleFilter sd sc c = match c with
+      | .sparse rows => .ok (.sparse (scaleSparseRows sd sc.cfg rows))
+      | c => scaleCtxs sd sc.cfg c := by
+  cases c <;> simp [scaleFilter, h]
+
+/-! ### `std` under a square root with relative error: the guard and the full case split -/
+
+theorem guard_within {sd : List Rat → Rat} {xs : List Rat} {δ : Rat} (h : SqrtWithin sd xs δ) :
+    sd xs < 1 / 1000000 ↔ variance xs * (1 + δ) < 1 / 1000000000000 := by
+  obtain ⟨h0, h1⟩ := h
+  rw [← h1]
+  constructor
+  · intro hlt
+    have : sd xs * sd xs < (1 / 1000000) * (1 / 1000000) := by nlinarith
+    linarith
+  · intro hlt
+    by_contra hc
+    have hge : (1 : Rat) / 1000000 ≤ sd xs := not_lt.1 hc
+    have : (1 / 1000000 : Rat) * (1 / 1000000) ≤ sd xs * sd xs := by nlinarith
+    linarith
+
+theorem std_scale_within_cases' (sd : List Rat → Rat) (xs : List Rat) (s f δ : Rat) (hx : SqrtWithin sd xs δ)
+    (h : ScaleStat sd .std xs s f) :
+    2 ≤ xs.length ∧
+    ((variance xs * (1 + δ) < 1 / 1000000000000 ∧ f = 1) ∨
+     (1 / 1000000000000 ≤ variance xs * (1 + δ) ∧ 0 ≤ f ∧ f * f * variance xs * (1 + δ) = 1)) := by
+  have hl : 2 ≤ xs.length := by
+    obtain ⟨d, ⟨hl, _⟩, _⟩ := h
+    exact hl
+  refine ⟨hl, ?_⟩
+  by_cases hg : sd xs < 1 / 1000000
+  · left
+    refine ⟨(guard_within hx).1 hg, ?_⟩
+    obtain ⟨d, ⟨_, rfl⟩, rfl⟩ := h
+    rw [if_pos hg]; norm_num
+  · right
+    have hv : ¬ variance xs * (1 + δ) < 1 / 1000000000000 := fun h' => hg ((guard_within hx).2 h')
+    exact ⟨not_lt.1 hv, std_scale_within' sd xs s f δ hx hg h⟩
+
+/-! ### the argument glue -/
+
+theorem envScaleFilters_given (sh : Shift) (sc : Scl) (ts : List String) (u : Option Nat) :
+    envScaleFilters ⟨some sh, some sc, some ts, some u⟩ = ts.map (fun t => ⟨⟨sh, sc, u⟩, t⟩) := rfl
+
+theorem envScaleFilters_defaults :
+    envScaleFilters ⟨none, none, none, none⟩ = [⟨⟨.min, .minmax, none⟩, "context"⟩] := rfl
+
+theorem envScaleFilters_fields (a : ScaleArgs) (k : ScaleCfg) (hk : k ∈ envScaleFilters a) :
+    (∀ sh, a.shift = some sh → k.cfg.shift = sh) ∧ (a.shift = none → k.cfg.shift = .min) ∧
+    (∀ sc, a.scale = some sc → k.cfg.scale = sc) ∧ (a.scale = none → k.cfg.scale = .minmax) ∧
+    (∀ u, a.usingA = some u → k.cfg.usingN = u) ∧ (a.usingA = none → k.cfg.usingN = none) := by
+  simp only [envScaleFilters, List.mem_map] at hk
+  obtain ⟨t, _, rfl⟩ := hk
+  refine ⟨?_, ?_, ?_, ?_, ?_, ?_⟩ <;> intros <;> simp_all
+
+theorem envScaleFilters_targets (a : ScaleArgs) :
+    (envScaleFilters a).map (·.target) = (match a.targets with | some ts => ts | none => ["context"]) := by
+  obtain ⟨sh, sc, ts, u⟩ := a
+  cases ts <;> simp [envScaleFilters, List.map_map, Function.comp_def]
+
+theorem envImputeFilters_given (ss : List Stat) (b : Bool) (u : Option Nat) :
+    envImputeFilters ⟨some ss, some b, some u⟩ = ss.map (fun st => (st, b, u)) := rfl
+
+theorem envImputeFilters_defaults : envImputeFilters ⟨none, none, none⟩ = [(.mean, true, none)] := rfl
+
+theorem envImputeFilters_fields (a : ImputeArgs) (k : Stat × Bool × Option Nat) (hk : k ∈ envImputeFilters a) :
+    (∀ b, a.indicator = some b → k.2.1 = b) ∧ (a.indicator = none → k.2.1 = true) ∧
+    (∀ u, a.usingA = some u → k.2.2 = u) ∧ (a.usingA = none → k.2.2 = none) := by
+  simp only [envImputeFilters, List.mem_map] at hk
+  obtain ⟨t, _, rfl⟩ := hk
+  refine ⟨?_, ?_, ?_, ?_⟩ <;> intros <;> simp_all
+
+theorem envScale_eq_pipe (sd : List Rat → Rat) (a : ScaleArgs) (c : Ctxs) :
+    envScale sd a c = pipe (scaleFilter sd) (envScaleFilters a) (.ok c) := rfl
+
+/-! ### the sparse default-zero completion -/
+
+theorem sparseCol_perm (k : String) (win : List SCtx) : (sparseCol k win).Perm (win.map (getD0 k)) := by
+  induction win with
+  | nil => simp [sparseCol]
+  | cons c l ih =>
+    unfold sparseCol at ih ⊢
+    cases h : c.lookup k with
+    | some v =>
+      simp only [List.filterMap_cons, h, List.map_cons, getD0, List.length_cons, List.cons_append]
+      have : l.length + 1 - ((List.filterMap (fun c => List.lookup k c) l).length + 1)
+          = l.length - (List.filterMap (fun c => List.lookup k c) l).length := by omega
+      rw [this]
+      exact List.Perm.cons v ih
+    | none =>
+      simp only [List.filterMap_cons, h, List.map_cons, getD0, List.length_cons]
+      have hle : (List.filterMap (fun c => List.lookup k c) l).length ≤ l.length := List.length_filterMap_le _ _
+      have : l.length + 1 - (List.filterMap (fun c => List.lookup k c) l).length
+          = (l.length - (List.filterMap (fun c => List.lookup k c) l).length) + 1 := by omega
+      rw [this, List.replicate_succ']
+      rw [← List.append_assoc]
+      exact (List.perm_append_singleton _ _).trans (List.Perm.cons _ ih)
+
+theorem perm_present {a b : List Val} (h : a.Perm b) : (present a).Perm (present b) := h.filter _
+
+theorem perm_nums {a b : List Val} (h : a.Perm b) : (nums a).Perm (nums b) := h.filterMap _
+
+theorem count_perm {a b : List Val} (h : a.Perm b) (v : Val) : count v a = count v b := by
+  unfold count
+  exact (h.filter _).length_eq
+
+theorem isMedian_perm {xs ys : List Rat} (h : xs.Perm ys) {m : Rat} (hm : IsMedian xs m) : IsMedian ys m := by
+  obtain ⟨s, hs, rest⟩ := hm
+  exact ⟨s, hs.trans h, rest⟩
+
+theorem isMode_perm {a b : List Val} (h : a.Perm b) {m : Val} (hm : IsMode a m) : IsMode b m := by
+  obtain ⟨h1, h2⟩ := hm
+  refine ⟨h.mem_iff.1 h1, fun v => ?_⟩
+  rw [← count_perm h v, ← count_perm h m]
+  exact h2 v
+
+theorem impStat_perm {st : Stat} {a b : List Val} (h : a.Perm b) {m : Val} (hm : ImpStat st a m) : ImpStat st b m := by
+  cases st with
+  | mode => exact isMode_perm h hm
+  | mean =>
+    obtain ⟨h1, h2⟩ := hm
+    have hp := perm_nums h
+    refine ⟨fun hb => h1 (by rw [hb] at hp; exact hp.eq_nil), ?_⟩
+    rw [h2, sumL_eq_sum, sumL_eq_sum, hp.sum_eq, hp.length_eq]
+  | median =>
+    obtain ⟨q, hq, rfl⟩ := hm
+    exact ⟨q, isMedian_perm (perm_nums h) hq, rfl⟩
+
+/-- the imputation statistic over Impute's completed sparse column (zeros appended) is the statistic over the dense
+embedding column (zeros in place) -/
+theorem sparse_completion_stat' (st : Stat) (k : String) (win : List SCtx) (m : Val) :
+    ImpStat st (present (sparseCol k win)) m ↔ ImpStat st (present (win.map (getD0 k))) m :=
+  ⟨impStat_perm (perm_present (sparseCol_perm k win)), impStat_perm (perm_present (sparseCol_perm k win).symm)⟩
+
+
+theorem scalar_dense_mixed_witness :
+    scaleScalar (fun _ => 1) ⟨.num 1, .num 2, none⟩ [.str "x", .num 3] = [.str "x", .num 8] ∧
+    scaleDense (fun _ => 1) ⟨.num 1, .num 2, none⟩ [[.str "x"], [.num 3]] = [[.str "x"], [.num 3]] := by
+  constructor
+  · simp [scaleScalar, window, fit, applyOpt, applyVal, Val.isStr]
+    norm_num
+  · simp [scaleDense, denseRow, window, potDense, Val.numOrNil, applyOpt]
 
 end Coba.C11
